@@ -150,6 +150,11 @@ func (s Set) Add(ip *IP) {
 
 func (s Set) PutValid(ip ...netip.Addr) {
 	for _, v := range ip {
+		if prev, ok := s[v]; ok && prev.InUse() {
+			// the address was removed remotely and is assigned again, the pod still holds it
+			prev.status = ipStatusValid
+			continue
+		}
 		s[v] = &IP{ip: v, status: ipStatusValid}
 	}
 }
